@@ -14,6 +14,26 @@ def cond_of(case, res):
     return {'routine': case['routine']}
 
 
+def reuse_case(c):
+    """same array object: call, exchange two weights in place (keeps the domain), call again; compare with fresh copies"""
+    bct = import_bct()
+    r = c['routine']; A = np.array(c['A'], dtype=float)
+    fn = getattr(bct, r)
+
+    def mutate(args):
+        M = args[0]; nz = np.argwhere(M != 0)
+        if len(nz) >= 2:
+            (i, j), (k, l) = nz[0], nz[-1]
+            if r in rc.UND:
+                M[i, j], M[k, l] = M[k, l], M[i, j]; M[j, i] = M[i, j]; M[l, k] = M[k, l]
+            else:
+                M[i, j], M[k, l] = M[k, l] + 1, M[i, j] + 1
+    kwargs = {}
+    if r in rc.LAT and c.get('D') is not None:
+        kwargs['D'] = np.array(c['D'], dtype=float)
+    return reuse_probe(fn, [A, c['itr']], mutate, kwargs=kwargs, t=6.0, seed=c['seed'])
+
+
 def main():
     ck = Check(PID)
     ck.cov['rule'] = ('cases = (routine, matrix, itr/maxswap/alpha, seed) from: every labelled 4-node graph with two vertex-disjoint edges '
@@ -36,7 +56,23 @@ def main():
         cases = [json.load(open(ck.replay))['case']['case']]
     else:
         cases = [c for c in rc.gen_cases(ck.rs, ck.tier) if not c.get('malformed')]
+    if not ck.replay:
+        # interleave routines and sizes inside every worker process, so that hidden state carried between calls
+        # (module-level caches keyed by n, shared masks, memoised results) meets a different routine / matrix next
+        order = ck.rs.permutation(len(cases)); cases = [cases[i] for i in order]
     results = pmap(rc.run_case, cases)
+    # object-reuse probes: the result must be a function of the argument values, not of earlier calls or object identity
+    probes = []
+    for c in cases:
+        if len(probes) >= (60 if ck.tier == 'quick' else 400):
+            break
+        if c['routine'] in ('randomizer_bin_und',) or c.get('den') or c.get('itr', 0) == 0 or c['routine'] == 'partial_und':
+            continue
+        probes.append(c)
+    for c, bad in zip(probes, pmap(reuse_case, probes)):
+        ck.count('reuse_probes')
+        if bad is not None:
+            ck.violation(c['routine'], 'result-depends-on-history', {'case': c, 'probe': bad}, cond_of(c, None))
     lines, idx = [], []
     for n_, (c, r) in enumerate(zip(cases, results)):
         ck.count('routine:' + c['routine']); ck.count('status:' + r['status']); ck.count('n=%d' % len(c['A']))
